@@ -332,6 +332,9 @@ func (m Packet) String() string {
 		}
 		sb.WriteString(" " + name + "=" + render(f))
 	}
+	if sb.Len() > 700 {
+		return sb.String()[:700] + "..."
+	}
 	return sb.String()
 }
 
